@@ -38,3 +38,12 @@ package text
 //@   ensures [safe-iff-no-control-rune] result == oneLineFrom(s, 0)
 //@   loop 1
 //@     invariant 0 <= rangepos && oneLineFrom(s, 0) == oneLineFrom(s, rangepos)
+
+// Empty and ValidUrl are used as predicates of their argument only (their definition through strings.TrimFunc
+// and net/url is not unfolded).
+//@ func Empty
+//@   trusted
+//@   purefn
+//@ func ValidUrl
+//@   trusted
+//@   purefn
